@@ -6,6 +6,18 @@ NOTES = ('All checks are ./check <id>; each rebuilds a source-only overlay from 
 NOT_CLAIMED = {}
 
 PROPS = {
+    'C01': {
+        'modules': ['contracts.C01_router'],
+        'level': 'translation_validation',
+        'level_text': 'For each route history of a bounded seeded enumeration (accepted and rejected adds interleaved, with and without lookups in between) the '
+                      'finder source that the real router generates is executed symbolically on a request path of symbolic length with symbolic segments and '
+                      'uninterpreted regex/converter outcomes, and compared with an independent depth-first oracle over the accepted templates: the generated '
+                      'program is loop-free, so each program is decided for ALL request paths. Plus unbounded contracts for find() and IntConverter.convert.',
+        'level_note': 'Programs (route sets) are bounded and sampled -- stated in the evidence; paths are not. The generator is not proved correct for all trees '
+                      '(compiler correctness by induction is outside reach). Oracle and template reader are trusted specification code.',
+        'technique': 'contract-based: per-program translation validation of the generated finder against a spec oracle by symbolic execution (all paths), '
+                     'function contracts for find()/converters, VCs discharged by z3',
+    },
     'C17': {
         'modules': ['contracts.C17_websocket'],
         'level': 'proof',
